@@ -15,16 +15,6 @@ CONSTANTS
   GMS = {64,128}
   Slicing = "layer"
   Export = FALSE
-INVARIANT LevelsStrictlyDecreasing
-INVARIANT LayerIsGeometricMean
-INVARIANT ArrayInputOrientation
-INVARIANT AltitudeStrictlyIncreasing
-INVARIANT GravityFallsOff
-INVARIANT StepRelation
-INVARIANT StepRelationAnyUnit
 INVARIANT MixAlignedWithLayers
-INVARIANT DensityIdealGas
-INVARIANT OneEntryPerLayer
-INVARIANT FitsInv
 CONSTRAINT Emit
 CHECK_DEADLOCK FALSE
